@@ -326,10 +326,21 @@ class World:
     # declarations ----------------------------------------------------
     def op_declare(self, k):
         x = self.U[k % self.nmax]
-        self.api.declare(x)
-        if x not in self.order:
-            self.order.append(x)
-            self.label('declare.new')
+        form = (k >> 8) % 4
+        if form == 0:
+            names = [x]
+        elif form == 1:
+            names = [x, x]          # a name repeated in one call
+        else:
+            y = self.U[(k >> 4) % self.nmax]
+            names = [x, y, x] if form == 2 else [y, x, y, x]
+        self.api.declare(*names)
+        for z in names:
+            if z not in self.order:
+                self.order.append(z)
+                self.label('declare.new')
+        if len(names) > 1:
+            self.label('declare.repeated_name')
 
     def op_add_var(self, k, mode):
         x = self.U[k % self.nmax]
@@ -1241,7 +1252,8 @@ class World:
         'load_corrupt_json', 'image_precondition', 'let_mixed_values',
         'add_expr_deep_failure', 'cube_bad_after_progress',
         'let_compose_late_failure', 'max_nodes_full', 'copy_missing_var',
-        'image_unknown_var_late',
+        'image_unknown_var_late', 'add_var_new_at_used_level',
+        'copy_vars_conflict',
     ]
 
     def op_full(self, a, b):
@@ -1429,6 +1441,31 @@ class World:
             raise ValueError('n/a')
         x = self.order[a % n]
         self.api.add_var(x, (self.order.index(x) + 1) % n)
+
+    def _bad_add_var_new_at_used_level(self, a, b):
+        """A new name at a level that another variable occupies."""
+        n = len(self.order)
+        if n < 1:
+            raise ValueError('n/a')
+        new = [x for x in self.U if x not in self.order]
+        x = new[b % len(new)] if new and b % 2 else 'zz_new'
+        self.api.add_var(x, a % n)
+
+    def _bad_copy_vars_conflict(self, a, b):
+        """copy_vars from a manager whose names sit at other levels."""
+        n = len(self.order)
+        if n < 2:
+            raise ValueError('n/a')
+        import dd._copy as _copy
+        rot = self.order[1:] + self.order[:1]
+        if self.kind == 'autoref':
+            S = self._ar.BDD()
+            S.declare(*rot)
+            self._ar.copy_vars(S, self.A)
+        else:
+            S = _mk_bdd_class()()
+            S.declare(*rot)
+            _copy.copy_vars(S, self.b)
 
     def _bad_reorder_partial_order(self, a, b):
         if len(self.order) < 2:
